@@ -75,7 +75,7 @@ Section HM4.
   Definition abs1 (nd : node) : list (K * V) := if nfilled nd then [(nkey nd, nval nd)] else [].
 
   Lemma abs_of_cons : forall nd ns, abs_of (nd :: ns) = abs1 nd ++ abs_of ns.
-  Proof. intros. unfold ProofsHM2.abs_of, abs1. cbn [filter]. destruct (nfilled nd); reflexivity. Qed.
+  Proof. intros. unfold Model.abs_of, abs1. cbn [filter]. destruct (nfilled nd); reflexivity. Qed.
 
   Lemma abs_split : forall ns i nd, nth_error ns i = Some nd ->
     abs_of ns = abs_of (firstn i ns) ++ abs1 nd ++ abs_of (skipn (S i) ns).
@@ -235,7 +235,7 @@ Section HM4.
   Qed.
 
   Lemma abs_empty : forall m ch fl, hm_inv_w m ch fl -> length (hbuckets m) = 0 -> hm_abs m = [].
-  Proof. intros m ch fl I H. unfold ProofsHM2.hm_abs. rewrite (inv_emp _ _ _ _ _ _ _ I H). reflexivity. Qed.
+  Proof. intros m ch fl I H. unfold Model.hm_abs. rewrite (inv_emp _ _ _ _ _ _ _ I H). reflexivity. Qed.
 
   Lemma hm_peek_ok : forall m k, hm_inv m ->
     hm_peek K V keqb khash k m = Ok (al_get K V keqb k (hm_abs m)).
@@ -466,9 +466,9 @@ Section HM4.
       - symmetry. apply kvf_eq_abs. split; [lia|]. intros j x Hx. destruct (KV2 j x Hx) as (y & A & B & _). eauto.
       - unfold ns1. rewrite abs_upd by assumption. reflexivity. }
     assert (hm_abs m = abs_of (firstn fi (hnodes m)) ++ abs_of (skipn (S fi) (hnodes m))) as HA0.
-    { unfold ProofsHM2.hm_abs. rewrite (abs_split _ _ _ Hndf). unfold abs1. rewrite Fndf. reflexivity. }
+    { unfold Model.hm_abs. rewrite (abs_split _ _ _ Hndf). unfold abs1. rewrite Fndf. reflexivity. }
     assert (forall k', al_find k' (abs_of ns2) = if keqb k' k then Some (k, vdflt) else al_find k' (hm_abs m)) as HF2.
-    { intros k'. rewrite HA2, HA0, !al_find_app. cbn [al_find ProofsAL.al_find fst app].
+    { intros k'. rewrite HA2, HA0, !al_find_app. cbn [Model.al_find Model.al_find fst app].
       destruct (keqb k' k) eqn:Q.
       - rewrite (al_find_congr K V keqb keqb_sym keqb_trans k' k _ Q) in *.
         rewrite HA0, al_find_app in Hnone. destruct (al_find k (abs_of (firstn fi (hnodes m)))); [discriminate|reflexivity].
@@ -534,9 +534,6 @@ Section HM4.
 
   (* the largest bucket count an inserting access can request from a map holding s bindings:
      the initial allocation, and the growth rehash after the insertion *)
-  Definition at_request (s : nat) : nat :=
-    Nat.max (Nat.max HM_INIT_n (ceilidiv (s * 100) HM_MAXLF_n))
-            (Nat.max (ceilidiv ((s + 1) * HM_GROW_n) HM_MAXLF_n) (ceilidiv ((s + 1) * 100) HM_MAXLF_n)).
 
   Lemma fm_insert_canon : forall m0 fi ndf bs2 ns2 k,
     hfree m0 = Some fi -> fi < length (hnodes m0) -> nth_error (hnodes m0) fi = Some ndf -> nfilled ndf = false ->
@@ -600,7 +597,7 @@ Section HM4.
       destruct FA as (AF & Hprev). subst prev.
       destruct (hm_insert_ok m0 ch fl k I HB0 AF) as (fi & ndf & fl' & bs2 & ns2 & Hfree & HfiL & Hndf & -> & Hcode & Lb2 & Ln2 & Nfi & U2 & HS2 & HF2 & HP2 & (Fndf & HC2) & Hinv2).
       fold b in Hcode, Nfi, Hinv2.
-      unfold ProofsHM2.hm_abs in AF. rewrite (fm_find_miss _ _ AF). fold (hm_abs m0) in AF.
+      unfold Model.hm_abs in AF. rewrite (fm_find_miss _ _ AF). fold (hm_abs m0) in AF.
       rewrite (fm_insert_canon m0 fi ndf bs2 ns2 k Hfree HfiL Hndf Fndf Lb2 HC2).
       rewrite Hfree. destruct (Nat.leb_spec (length (hnodes m0)) fi); [lia|].
       rewrite (sget_Some _ _ _ _ Hndf). cbn [rbind]. rewrite sset_ok by assumption. cbn [rbind].
@@ -621,19 +618,19 @@ Section HM4.
         assert (length (hnodes m2) <= length (hnodes m3)) as Hle.
         { destruct I3 as (ch3 & fl3 & I3). specialize (B3 ltac:(cbn; lia)).
           pose proof (inv_room _ _ _ _ _ _ _ I3 B3) as R3. rewrite S3 in R3. cbn [m2 Model.hsize Model.hnodes] in *.
-          pose proof (inv_cap2 _ _ _ _ _ _ _ I) as C2. unfold ProofsHM1.MAXLF in C2.
+          pose proof (inv_cap2 _ _ _ _ _ _ _ I) as C2. unfold Model.MAXLF in C2.
           assert (ceilidiv (length (hbuckets m0) * HM_MAXLF_n) 100 < hsize m0 + 2).
           { unfold ceilidiv. apply Nat.div_lt_upper_bound; lia. }
           lia. }
         destruct (P3 Hle fi y Hy Fy) as (y3 & Hy3 & K3 & V3 & F3).
         exists m3, fi, y3. split; [reflexivity|]. split; [assumption|]. split; [assumption|]. split; [congruence|].
         rewrite <- HA0, AF. split; [split; [congruence|]; split; [congruence|];
-          rewrite A3; unfold ProofsHM2.hm_abs at 1; cbn [m2 Model.hnodes]; exact HP2|].
+          rewrite A3; unfold Model.hm_abs at 1; cbn [m2 Model.hnodes]; exact HP2|].
         destruct (Nat.leb_spec (length (hbuckets m0) * HM_MAXLF_n) ((hsize m0 + 1) * 100)); [|lia].
         fold m2. rewrite FM. reflexivity.
       + right. cbn [rbind].
         assert (hsize m0 + 1 < length (hnodes m0)) as Hrm.
-        { pose proof (inv_cap _ _ _ _ _ _ _ I) as C1. unfold ProofsHM1.MAXLF in C1. nia. }
+        { pose proof (inv_cap _ _ _ _ _ _ _ I) as C1. unfold Model.MAXLF in C1. nia. }
         exists (mkhm K V bs2 ns2 (hsize m0 + 1) (nnext ndf)), fi, y.
         split; [reflexivity|]. split; [eexists; eexists; apply Hinv2; assumption|]. split; [assumption|]. split; [assumption|].
         rewrite <- HA0, AF. split; [split; [assumption|]; split; [assumption|]; exact HP2|].
@@ -656,7 +653,7 @@ Section HM4.
   Lemma al_find_replace : forall A C kn old v k', keys_nodup (A ++ (kn, old) :: C) ->
     al_find k' (A ++ (kn, v) :: C) = if keqb k' kn then Some (kn, v) else al_find k' (A ++ (kn, old) :: C).
   Proof.
-    intros A C kn old v k' ND. rewrite !al_find_app. cbn [ProofsAL.al_find fst].
+    intros A C kn old v k' ND. rewrite !al_find_app. cbn [Model.al_find fst].
     apply keys_nodup_app in ND. destruct ND as (_ & _ & X).
     destruct (keqb k' kn) eqn:Q; [|reflexivity].
     destruct (al_find k' A) eqn:E; [|reflexivity]. exfalso.
@@ -692,11 +689,11 @@ Section HM4.
         unfold Model.canon. cbn [Model.hfree Model.hnodes Model.hsize Model.hbuckets].
         rewrite canon_upd, canon_set_val. reflexivity. }
     - exists ch, fl. apply (inv_kfn m1 ch fl _ I1). eapply kfn_upd; eauto.
-    - unfold ProofsHM2.hm_abs at 1. cbn [Model.hnodes].
+    - unfold Model.hm_abs at 1. cbn [Model.hnodes].
       rewrite abs_upd by assumption. unfold abs1 at 1. cbn [Model.nfilled Model.set_val Model.nkey Model.nval]. rewrite F.
       pose proof (abs_nodup _ _ _ I1) as ND1.
       assert (hm_abs m1 = abs_of (firstn i (hnodes m1)) ++ (nkey nd, nval nd) :: abs_of (skipn (S i) (hnodes m1))) as EA.
-      { unfold ProofsHM2.hm_abs. rewrite (abs_split _ _ _ Hn). unfold abs1. rewrite F. reflexivity. }
+      { unfold Model.hm_abs. rewrite (abs_split _ _ _ Hn). unfold abs1. rewrite F. reflexivity. }
       set (A := abs_of (firstn i (hnodes m1))) in *. set (C := abs_of (skipn (S i) (hnodes m1))) in *. cbn [app].
       destruct (al_find k (hm_abs m)) as [kv|] eqn:AF.
       + destruct SP as (E1 & <- & Q). rewrite <- E1, EA. rewrite EA in ND1.
@@ -827,7 +824,7 @@ Section HM4.
     eexists. split; [reflexivity|].
     (* bindings *)
     assert (hm_abs m = abs_of (firstn i (hnodes m)) ++ (nkey nd, nval nd) :: abs_of (skipn (S i) (hnodes m))) as HA0.
-    { unfold ProofsHM2.hm_abs. rewrite (abs_split _ _ _ Hn). unfold abs1. rewrite F. reflexivity. }
+    { unfold Model.hm_abs. rewrite (abs_split _ _ _ Hn). unfold abs1. rewrite F. reflexivity. }
     assert (abs_of ns2 = abs_of (firstn i (hnodes m)) ++ abs_of (skipn (S i) (hnodes m))) as HA2.
     { unfold ns2. rewrite abs_upd by lia. unfold abs1. cbn [Model.nfilled z app].
       f_equal; symmetry; apply kvf_eq_abs.
